@@ -18,6 +18,8 @@ def main():
         data = json.loads(open(a.replay).read())
         return mod.replay(rep, data)
     proof = {'obligations': 1, 'discharged': 0, 'checker_cmd': 'skipped', 'trusted_base': []}
+    if a.no_proof:
+        os.environ['FPY_EVIDENCE_ELSEWHERE'] = '1'   # a debugging run is not evidence
     if not a.no_proof:
         proof = proof_stage(rep, prop, a.tier == 'thorough', getattr(mod, 'EXTRA_PROPS', None))
     try:
